@@ -211,6 +211,17 @@ class World:
     def func(self, qualname):
         return self.functions[qualname]
 
+    def nested_function(self, outer_qualname, name):
+        """The function `name` defined inside the body of `outer_qualname` (closure variables are supplied by the unit)."""
+        outer = self.functions[outer_qualname]
+        for st in ast.walk(outer.node):
+            if isinstance(st, (ast.FunctionDef, ast.AsyncFunctionDef)) and st.name == name and st is not outer.node:
+                q = f"{outer_qualname}.{name}"
+                f = FuncVal(st, q, outer.module, None, [], [MISSING] * len(st.args.kwonlyargs), None)
+                self.functions[q] = f
+                return f
+        raise Unsupported(f"{outer_qualname} has no nested function {name}")
+
     def make_harness(self, name, src, module=PKG + ".gateway"):
         """A sidecar driver function (not repository code): it only *calls* the code under contract."""
         tree = ast.parse(src)
